@@ -181,6 +181,7 @@ class C05(Oracle):
             "time_as_string": rng.choice([0.3, 0.6]),
             "vias": {"new_record": 2, "factory": 3, "conv": 2},
             "multi_value": rng.choice([0.2, 0.6]),
+            "p_subfactory": rng.choice([0.0, 0.3]),
         }
         return {"profile": prof, "steps": rng.randrange(8, 40), "p_formal_readd": rng.choice([0.1, 0.25])}
 
@@ -332,6 +333,11 @@ class C05(Oracle):
             if f in formal:
                 pairs.append([["qn", "prov", pools.PROV_URI, f], formal[f]])
         pairs += list(extra)
+        if out.info.get("subtype"):
+            # revision()/quotation()/primary_source()/collection(): the base record plus the type
+            pairs.append([["qn", "prov", pools.PROV_URI, "type"],
+                          ["qn", "prov", pools.PROV_URI, out.info["subtype"]]])
+            self.probe("subtype_factory")
         mp = self.pairs_model(w, pairs)
         if mp is None:
             self.count("transition_unmodelled")
